@@ -10,7 +10,7 @@ CLAIMED={
  'C05':('exploration','real Initiator + real Acceptor on the simulated network (driver-pumped links, one delivery per step) and simulated disk; cuts with byte-granular loss, write errors after cuts, half-open links, refused reconnects, crash/restart on process-crash and power-loss images; with and without EnableNextExpectedMsgSeqNum; end-to-end exactly-once/in-order oracle after a fault-free settle period; a send in flight across an orderly stop; frames stranded behind a session the initiator ended itself (stub counterparty, select gate): the initiator dials again'),
  'C06':('exploration','defects planted in flight by the stub peer in every logged-on state; non-delivery + reaction-for-one-of-the-defects oracle'),
  'C07':('exploration','continuity/reset oracle over reconnect histories for every reset-option combination, three stores; Logons refused by the application, Logout replies refused by the store'),
- 'C08':('exploration','per-connection envelope monitor (wire recorded at write time, callbacks, close) under the adversarial workload with timers, cuts, Stop, store refusals, non-Logon first messages, slow application callbacks with a second frame waiting behind, and an application that sends from inside its inbound callbacks; a third of the runs with the session loop's choice among ready sources decided by the simulator (select gate): callbacks outlasting the timers while frames wait'),
+ 'C08':('exploration','per-connection envelope monitor (wire recorded at write time, callbacks, close) under the adversarial workload with timers, cuts, Stop, store refusals, non-Logon first messages, slow application callbacks with a second frame waiting behind, and an application that sends from inside its inbound callbacks; a third of the runs with the choice among the ready sources of the session loop decided by the simulator (select gate): callbacks outlasting the timers while frames wait'),
  'C09':('exploration','in-flight corruption of live traffic (19 kinds, envelope repaired in half of them) in every session state; process survival, watchdog (spinning engine goroutine), recovered-panic probe and liveness probe; every corrupted frame and truncations of it also go through ParseMessage(+dictionaries) and the typed accessors directly, and damaged settings text / dictionary XML through ParseSettings / datadictionary.ParseSrc (pure functions riding along); dictionaries that load are validated against; tasks sharing one message under the cooperative scheduler (codec locks as scheduling points, a typed accessor must not hang)'),
  'C12':('exploration','same byte stream under several read schedules to the real parser (raw and through bufio) and through an engine\'s readLoop behind simnet; metamorphic + model oracle'),
  'C16':('exploration','real memory/file/SQL stores vs. a reference model, operation by operation, incl. refresh, reset, reopen, shared backing store (twin sessions differing in one id part, optional parts empty or set), on the simulated disk / sqlite3; SQL statements refused inside Refresh and Reset (an operation that reports an error changes nothing)'),
